@@ -4,7 +4,11 @@ masks and labels survive arithmetic, slicing and likelihood evaluation.
 K : Spectrum.fold / unfold / Numerics.reverse_array / apply_anc_state_misid / make_anc_state_misid_func /
     all 14 binary + 7 in-place operator templates / basic slicing / the `model = model.fold()` guards of
     Inference.py  — real implementation vs the exact-rational Lean model (Model/Fold.lean, whose pointwise
-    formulas are regenerated from the source by tools/gen_Fold.py).
+    formulas are regenerated from the source by tools/gen_Fold.py).  Round 5: the two templates are *interpreted* by the
+    model from their translated statement lists; what an in-place operator leaves in `self` (returned or refused), the
+    unary operations (-fs, +fs, abs, copy, deepcopy, view, log), the order in which numpy calls the subclass hooks
+    (`__array_finalize__`, `_update_from`, `__array_wrap__`; spy on the class vs the model's `hooksOf`) and the
+    composition of two misidentifications are compared too.
 L3: the property statement evaluated directly on the implementation with explicit loops over numpy.ndindex
     (independent of the model): pairing, halves, totals, mirror invariance, mask union, fold∘unfold∘fold,
     convex mix, refusal of mixed folding, survival of folded/mask/pop_ids; no buffer shared between a result and its
@@ -16,6 +20,7 @@ L3: the property statement evaluated directly on the implementation with explici
     evaluation must reproduce the first.
 """
 import numpy as np, itertools, operator, copy, io, contextlib
+from fractions import Fraction
 from . import common
 from .common import rat, fmt_nd, parse_list, close
 
@@ -551,7 +556,7 @@ def l3_unary(chk, ctx, fs, info):
     inp = describe(fs)
     st_fs = state(fs)
     for nm, g in (('neg', operator.neg), ('pos', operator.pos), ('abs', abs), ('copy', lambda s: s.copy()),
-                  ('deepcopy', copy.deepcopy), ('log', lambda s: s.log())):
+                  ('deepcopy', copy.deepcopy), ('view', lambda s: s.view()), ('log', lambda s: s.log())):
         chk.l3(('unary', nm, info['d'], bool(fs.folded)))
         try:
             with np.errstate(all='ignore'):
@@ -774,6 +779,154 @@ def l3_likelihood_case(chk, ctx, model, data_u, data_f, info):
             if hasattr(c, 'folded') and c.folded is not False:
                 chk.fail('ll:%s:result-unfolded' % nm, 'per-bin result against unfolded data has folded=%r' % (c.folded,), inp)
 
+
+# ------------------------------------------------------------------ unary operations, subclass hooks (K)
+UNARY_OPS = [('neg', operator.neg), ('pos', operator.pos), ('abs', abs), ('copy', lambda s_: s_.copy()), ('deepcopy', copy.deepcopy),
+             ('view', lambda s_: s_.view()), ('log', lambda s_: s_.log())]
+
+def k_unary(chk, dadi, fs, driver):
+    """-fs, +fs, abs(fs), copy, deepcopy, view, log: implementation vs `unarySpec` (attributes through the generated hook rules,
+    data on every entry, mask).  `log`: the logarithm is not rational — mask, flags, labels and the data of the masked entries
+    (which numpy.ma leaves at their input value) are compared"""
+    for nm, g in UNARY_OPS:
+        a = restore(dadi, state(fs))
+        op = 'unary:' + nm
+        try:
+            with np.errstate(all='ignore'):
+                r = g(a)
+        except Exception as e:
+            chk.k_bad(op, describe(fs), 'raises %s' % type(e).__name__, None, None); continue
+        kind, val = ask(driver, 'c09.unary %s %s' % (nm, fs_toks(fs)))
+        if kind == 'err':
+            # the model has no proper folding status for the result ('unspecified'): the implementation must not have one either
+            if getattr(r, 'folded', None) in (True, False):
+                chk.k_bad(op, describe(fs), describe(r), 'err ' + str(val), None)
+            else:
+                chk.k_skipped += 1; chk.stat('k:skipped:' + str(val))
+            continue
+        if kind != 'ok' or not isinstance(val, dict):
+            chk.k_bad(op, describe(fs), describe(r), val, None); continue
+        if nm == 'log':
+            rm = np.ma.getmaskarray(r)
+            ok = tuple(r.shape) == tuple(val['shape']) and np.array_equal(rm, val['mask']) and r.folded is not None \
+                and getattr(r, 'folded', None) in (True, False) and bool(r.folded) == val['folded'] and r.pop_ids == val['pop_ids'] \
+                and np.array_equal(np.asarray(r.data)[rm], val['data'][rm])
+            why = '' if ok else 'log: shape/mask/folded/pop_ids/data-under-mask differ'
+        else:
+            ok, why = same_spec(r, val)
+        if ok: chk.k_ok(op)
+        else: chk.k_bad(op, describe(fs), describe(r), why, None)
+
+HOOK_CASES = [('slice', 'fs[1:, ...]', lambda s_: s_[1:]), ('slice', 'fs[::-1]', lambda s_: s_[::-1]), ('slice', 'fs[0]', lambda s_: s_[0]),
+              ('slice', 'reverse_array(fs)', None),
+              ('ufunc', '-fs', operator.neg), ('ufunc', '+fs', operator.pos), ('ufunc', 'abs(fs)', abs),
+              ('copy', 'fs.copy()', lambda s_: s_.copy()), ('deepcopy', 'copy.deepcopy(fs)', copy.deepcopy),
+              ('view', 'fs.view()', lambda s_: s_.view()), ('log', 'fs.log()', lambda s_: s_.log())]
+
+def k_hooks(chk, ctx, rng):
+    """the order in which numpy / numpy.ma call `__array_finalize__`, `_update_from`, `__array_wrap__` (and `log`) on the real class
+    — recorded when each call RETURNS, i.e. in the order of the hooks' own attribute assignments — against the model's `hooksOf`"""
+    dadi = ctx['dadi']; driver = ctx['driver']
+    S = dadi.Spectrum
+    trace = []
+    saved = {}
+    def spy(name, tag):
+        orig = S.__dict__[name]; saved[name] = orig
+        def w(self, *a, **k):
+            obj = a[0] if a else None
+            r = orig(self, *a, **k)
+            if tag in ('fin', 'upd'):
+                trace.append('%s(%s)' % (tag, 'S' if isinstance(obj, S) else ('M' if isinstance(obj, np.ma.MaskedArray) else
+                                               ('A' if isinstance(obj, np.ndarray) else 'None'))))
+            else:
+                trace.append(tag)
+            return r
+        w.__name__ = name
+        setattr(S, name, w)
+    try:
+        for name, tag in (('__array_finalize__', 'fin'), ('_update_from', 'upd'), ('__array_wrap__', 'wrap'), ('log', 'log')):
+            spy(name, tag)
+        for kindname, what, g in HOOK_CASES:
+            for folded in (False, True):
+                shape = gen_shape(rng, int(rng.integers(2 if what == 'fs[0]' else 1, 4)), 'quick')
+                data, _ = gen_data(rng, shape, 'float'); mask, _ = gen_mask(rng, shape)
+                fs = S(data + 0.5, mask=mask, mask_corners=False, data_folded=folded, check_folding=False, pop_ids=gen_ids(rng, len(shape)))
+                if g is None: g_ = dadi.Numerics.reverse_array
+                else: g_ = g
+                del trace[:]
+                try:
+                    with np.errstate(all='ignore'):
+                        r = g_(fs)
+                    got = ','.join(trace)
+                except Exception as e:
+                    got = 'raises ' + type(e).__name__; r = None
+                del trace[:]
+                kind, val = ask(driver, 'c09.hooks ' + kindname)
+                want = val[0] if kind == 'ok' and val else repr(val)
+                op = 'hooks:' + kindname
+                if got == want: chk.k_ok(op)
+                else: chk.k_bad(op, dict(operation=what, folded=folded, shape=list(shape)), got, want, None)
+    finally:
+        for name, orig in saved.items():
+            setattr(S, name, orig)
+
+def k_inplace_self(chk, op, name, fs, tgt, other, okind, inp, driver):
+    """`tgt` (a copy of `fs`) has just been through `tgt.<name>(other)` — returned or raised; the model's `inplaceSelfAfter` runs the
+    translated statement list of the in-place template up to the same point"""
+    kind, val = ask(driver, 'c09.inplaceself %s %s %s' % (name, fs_toks(fs), operand_toks(other, okind)))
+    if kind == 'err':
+        chk.k_skipped += 1; chk.stat('k:skipped:' + str(val)); return
+    if kind != 'ok' or not isinstance(val, dict):
+        chk.k_bad(op, inp, describe(tgt), val, None); return
+    ok, why = same_spec(tgt, val)
+    if ok: chk.k_ok(op)
+    else: chk.k_bad(op, inp, describe(tgt), 'self afterwards: ' + why, None)
+
+def l3_misid_algebra(chk, ctx, fs, p, q, info):
+    """composition, mirror symmetry and symmetrisation of the misidentification model, on the implementation"""
+    dadi = ctx['dadi']; misid = dadi.Numerics.apply_anc_state_misid
+    inp = dict(fs=describe(fs), p=float(p), q=float(q))
+    x = np.array(fs.data, dtype=float, copy=True); m = np.ma.getmaskarray(fs).copy()
+    tol = 1e-9 * max(1.0, np.abs(x).max() if x.size else 1.0)
+    chk.l3(('misid-algebra', info['d'], info['parity'], is_symmetric(m), float(p) in (0.0, 1.0, 0.5), float(q) in (0.0, 1.0, 0.5)))
+    st_fs = state(fs)
+    try:
+        a = misid(misid(fs, p), q)
+        r = float(p) + float(q) - 2 * float(p) * float(q)
+        b = misid(fs, r)
+        c = misid(dadi.Numerics.reverse_array(fs), p)
+        d = misid(fs, 1 - float(p))
+        h = misid(fs, 0.5)
+        z = misid(fs, 0.0)
+    except Exception as e:
+        chk.fail('misid:algebra:raises:%s' % type(e).__name__, 'apply_anc_state_misid raises %r' % (e,), inp); return
+    survives(chk, 'misid:mutates-input', 'apply_anc_state_misid (composition / mirror / p = 1/2)', inp, [('fs', fs, st_fs)])
+    def same(u, v):
+        return np.abs(np.asarray(u.data) - np.asarray(v.data)).max() <= tol and np.array_equal(np.ma.getmaskarray(u), np.ma.getmaskarray(v)) \
+            and u.folded == v.folded and u.pop_ids == v.pop_ids
+    if not same(a, b):
+        chk.fail('misid:compose', 'misid(misid(fs, p), q) != misid(fs, p + q - 2pq)', inp)
+    if not same(c, d):
+        chk.fail('misid:mirror', 'misid(reverse_array(fs), p) != misid(fs, 1 - p)', inp)
+    hd = np.asarray(h.data); hm = np.ma.getmaskarray(h)
+    if np.abs(hd - mirror_nd(hd)).max() > tol or np.abs(hd - 0.5 * (x + mirror_nd(x))).max() > tol or not np.array_equal(hm, mirror_nd(hm)):
+        chk.fail('misid:half', 'misid(fs, 1/2) is not the mirror-symmetric average (x + mirror x)/2 with a mirror-symmetric mask', inp)
+    # a mask that is not mirror-symmetric: the mirror of every masked entry is masked in the result, for every p (also p = 0)
+    zm = np.ma.getmaskarray(z)
+    if not np.array_equal(zm, m | mirror_nd(m)) or np.abs(np.asarray(z.data) - x).max() > 0:
+        chk.fail('misid:p0-mask', 'misid(fs, 0): data must be unchanged and the mask must be mask | mirror(mask) (%d vs %d masked entries)'
+                 % (int(zm.sum()), int((m | mirror_nd(m)).sum())), inp)
+    if not fs.folded and not m.all():
+        try:
+            u = fs.fold().unfold()
+            if np.abs(np.asarray(u.data) - hd).max() > tol:
+                chk.fail('misid:half-unfold-fold', 'misid(fs, 1/2) data != unfold(fold(fs)) data', inp)
+            c_ = np.zeros(fs.shape, dtype=bool); c_.flat[0] = c_.flat[-1] = True
+            if not np.array_equal(np.ma.getmaskarray(u), hm | c_):
+                chk.fail('misid:half-unfold-fold-mask', 'mask of unfold(fold(fs)) != mask of misid(fs, 1/2) plus corners', inp)
+        except Exception as e:
+            chk.fail('misid:half:raises:%s' % type(e).__name__, 'fold/unfold raises %r' % (e,), inp)
+
 # ------------------------------------------------------------------ K cases
 def k_compare(chk, op, inp, impl_call, line, driver, rtol=1e-9):
     """run the implementation and the model; agree on result or on the raised exception"""
@@ -876,11 +1029,11 @@ def run(chk, ctx):
                 'non-trivial = distinct (d, parity, mask kind, data kind, shape) for fold, (method, operand kind, d, folded, mismatch) for arithmetic')
     chk.unproved = ['IEEE round-off: the float implementation agrees with the exact model to 1e-9 relative (K), theorems are about exact rationals',
                     'aliasing between results and operands is not part of the value-level model: only the `copy` flag of the binary template is translated (C09_arith_fresh); shares_memory and mutate-after checks are L3',
-                    'unary operators, copy, .log(): handled by numpy.ma machinery (__array_finalize__/__array_wrap__), checked by L3 only',
+                    'unary operators, copy, view, .log(): the attribute rules of __array_finalize__/_update_from/__array_wrap__/log are translated and proved to keep folded/pop_ids (C09_hooks_keep, C09_unary_keeps, C09_slice_keeps); the ORDER in which numpy calls these hooks, and the data/mask numpy.ma computes for a unary ufunc, are tied by correspondence only (K: spy on the class vs `hooksOf`; values vs `unarySpec`); the value of log() is not rational and not modelled',
                     'powers with non-integer exponents and division by zero are outside the exact model (K skips them; L3 checks mask/folded/labels there too)',
                     'the Python data-model dispatch from operator syntax to the template methods is checked by L3, not proved',
                     'likelihood: the decision "fold the model iff data folded and model not" (generated guard), that fold/unfold leave their input alone (C09_fold_pure, generated in-place statements) and that no function of the family contains a store into model/data (C09_operands_not_stored, syntactic scan) are proved; equality ll(model, data) = ll(model.fold(), data), reproducibility and survival of the arguments through numpy.ma are L3',
-                    'operands of the arithmetic templates survive: proved only as "the template contains no store into an operand" (syntactic); behaviour is L3 (before/after snapshots)']
+                    'the OTHER operand of the arithmetic templates survives: proved only as "the template contains no store into `other`" (syntactic); behaviour is L3 (before/after snapshots). What the templates do to `self` (data under the mask, mask; unchanged when refused) is modelled statement by statement and proved (C09_binary_program, C09_inplace_program, C09_arith_refused)']
     # ---- method tables: implementation vs generated lists
     kind, val = ask(driver, 'c09.methods')
     impl_bin = [m for m in BINARY if m in dadi.Spectrum.__dict__]; impl_inp = [m for m in INPLACE if m in dadi.Spectrum.__dict__]
@@ -904,6 +1057,7 @@ def run(chk, ctx):
         chk.k_bad('likelihood-family', {}, dict(family=impl_fam, exercised=base_funcs), val, None)
     if set(impl_fam) - set(base_funcs):
         chk.stat('l3:ll:family-not-exercised:' + ','.join(sorted(set(impl_fam) - set(base_funcs))))
+    k_hooks(chk, ctx, rng)
     chk.assumptions += ['C09: `_total_per_entry` = index sum, `reverse_array` = reversal of every axis, `mask_corners` = flat[0], flat[-1], '
                         'numpy.ma.mask_or, the Python meaning of the dunder method names and basic slicing are tied by correspondence (K) and by a '
                         'literal-statement check in tools/gen_Fold.py, not by translation']
@@ -943,6 +1097,13 @@ def run(chk, ctx):
             l3_misid(chk, ctx, fs, p, info)
             k_compare(chk, 'misid', dict(fs=inp, p=float(p)), lambda: dadi.Numerics.apply_anc_state_misid(fs, p),
                       'c09.misid %s %s' % (rat(float(p)), fs_toks(fs)), driver)
+            qk = (it // 5) % 4
+            q = [0.5, float(rng.uniform(0, 1)), 1.0, 0.0][qk]
+            l3_misid_algebra(chk, ctx, fs, p, q, info)
+            r_pq = Fraction(float(p)) + Fraction(float(q)) - 2 * Fraction(float(p)) * Fraction(float(q))
+            k_compare(chk, 'misid:compose', dict(fs=inp, p=float(p), q=float(q)),
+                      lambda: dadi.Numerics.apply_anc_state_misid(dadi.Numerics.apply_anc_state_misid(fs, p), q),
+                      'c09.misid %s %s' % (rat(r_pq), fs_toks(fs)), driver)
             if rep % 3 == 0:
                 def func(params, ns, scale=1.0, _fs=fs):
                     return _fs * (params[0] * scale)
@@ -957,6 +1118,7 @@ def run(chk, ctx):
             # unary + slicing (L3, slicing also K)
             for s in (fs, g):
                 l3_unary(chk, ctx, s, info)
+                k_unary(chk, dadi, s, driver)
                 idx, desc = gen_index(rng, s.shape)
                 r = l3_slice(chk, ctx, s, idx, info)
                 if r is not None and np.ndim(r) > 0:
@@ -988,6 +1150,8 @@ def run(chk, ctx):
                 tgt = fs.copy()
                 line = 'c09.%s %s %s %s' % ('inplace' if inplace else 'binop', name, fs_toks(fs), operand_toks(other, ok_))
                 k_compare(chk, ('inplace:' if inplace else 'binop:') + name, inp, lambda: getattr(tgt, name)(other), line, driver)
+                if inplace:
+                    k_inplace_self(chk, 'inplace-self:' + name, name, fs, tgt, other, ok_, inp, driver)
     # ---- automatic folding in the likelihood functions: K on the decision, L3 on values
     calls = []
     orig_fold = dadi.Spectrum.fold
